@@ -974,6 +974,9 @@ Error RALocalAllocator::alloc_instruction(InstNode* node) noexcept {
 
                 RAWorkReg* work_reg = consecutive_regs[i]->work_reg();
                 score += uint32_t(work_reg->home_reg_id() == consecutive_index);
+
+                // Prefer registers that hold no live value - a live one has to be spilled first.
+                score += uint32_t(!Support::bit_test(live_regs, consecutive_index)) * 2u;
               }
 
               if (score > best_score) {
@@ -990,6 +993,16 @@ Error RALocalAllocator::alloc_instruction(InstNode* node) noexcept {
           for (i = 0; i < consecutive_count; i++) {
             uint32_t consecutive_index = best_lead_reg + i;
             RATiedReg* tied_reg = consecutive_regs[i];
+
+            // The chosen register can still hold another virtual register (the sequence is picked after the registers
+            // clobbered by the instruction were freed). Spill it, otherwise the OUT assignment below would silently
+            // overwrite a live value and leave the assignment maps inconsistent.
+            if (_cur_assignment.is_phys_assigned(group, consecutive_index)) {
+              RAWorkId other_work_id = _cur_assignment.phys_to_work_id(group, consecutive_index);
+              ASMJIT_PROPAGATE(on_spill_reg(group, work_reg_by_id(other_work_id), other_work_id, consecutive_index));
+              live_regs &= ~Support::bit_mask<RegMask>(consecutive_index);
+            }
+
             tied_reg->set_out_id(consecutive_index);
           }
         }
